@@ -188,25 +188,40 @@ class guard:
     is slow, not wrong, and nothing a property speaks about -- but it would stall the run.  The guard raises
     ParseAbandoned in the parsing thread after a generous wall-clock limit; the outcome then is an error like any
     other (the reference model answers such counts with 'data missing', so the two agree).  When the model reads the
-    input and the library is abandoned, judge_parse reports it: a reader that does not finish on readable input."""
+    input and the library is abandoned, judge_parse reports it: a reader that does not finish on readable input.
+    One watchdog thread per process looks at the current deadline twice a second (no thread per parse)."""
+
+    _state = {"deadline": None, "tid": None, "thread": None}
+
+    @classmethod
+    def _watch(cls):
+        import ctypes
+        import time
+
+        st = cls._state
+        while True:
+            time.sleep(0.5)
+            d, tid = st["deadline"], st["tid"]
+            if d is not None and time.monotonic() > d:
+                st["deadline"] = None
+                ABANDONED[0] += 1
+                ctypes.pythonapi.PyThreadState_SetAsyncExc(ctypes.c_ulong(tid), ctypes.py_object(ParseAbandoned))
 
     def __enter__(self):
-        import ctypes
         import threading
+        import time
 
-        tid = threading.get_ident()
-
-        def fire():
-            ABANDONED[0] += 1
-            ctypes.pythonapi.PyThreadState_SetAsyncExc(ctypes.c_ulong(tid), ctypes.py_object(ParseAbandoned))
-
-        self.t = threading.Timer(PARSE_LIMIT_S, fire)
-        self.t.daemon = True
-        self.t.start()
+        st = self._state
+        if st["thread"] is None:
+            st["thread"] = threading.Thread(target=self._watch, daemon=True)
+            st["thread"].start()
+        self.outer = (st["deadline"], st["tid"])
+        st["tid"] = threading.get_ident()
+        st["deadline"] = time.monotonic() + PARSE_LIMIT_S
         return self
 
     def __exit__(self, *a):
-        self.t.cancel()
+        self._state["deadline"], self._state["tid"] = self.outer if self.outer[0] is not None else (None, None)
         return False
 
 
